@@ -176,6 +176,10 @@ def rand_jobs(seed, n, families, crashes=(0, 1), wfaults=0, rfaults=0, probes=0,
             r["maxparts"] = rng.choice([0, 1, 2, 3])
             scen["htlcs"] = []
         job = {"run": start_run + k, "scen": scen, "rand": r, "probes": probes, "tag": fam}
+        if (heights or derive) and not direct and rng.random() < 0.5:
+            # the height the lifecycle sees comes from the real BlockWatcher (start + notifications + polls)
+            job["realblocks"] = True
+            r["crashes"] = max(r["crashes"], rng.choice([0, 1]))
         if derive:
             job["derive_rel"] = True
             r["heights"] = True
@@ -270,6 +274,16 @@ def class_jobs(seed, tier, start_run=1):
         jobs.append({"run": runno, "scen": sc, "sched": [{"a": "htlc", "i": 1}], "drain": True, "tag": "class", "payload": True,
                      "rand": {"seed": rng.getrandbits(40), "steps": 0}})
         runno += 1
+    # payment hashes that differ only a little from the hash the attached invoice is for
+    for v in range(1, 8):
+        for inv in (1, 2):
+            cfg = dict(CFG_A)
+            h = H("near:h1:%d" % v, inv, 100, 100, cfg["h0"] + cfg["pdelta"] + 50, cfg["pdelta"] + 50,
+                  **({"decl": CLASS_A, "decl_len": -2} if inv == 2 else {}))
+            sc = {"cfg": cfg, "invs": CLASS_INVS, "htlcs": [h], "probe": []}
+            jobs.append({"run": runno, "scen": sc, "sched": [{"a": "htlc", "i": 1}], "drain": True, "tag": "class-near", "payload": True,
+                         "rand": {"seed": rng.getrandbits(40), "steps": 0}})
+            runno += 1
     # metadata that is not a well-formed trampoline request, with other records around it
     for raw in RAW_META:
         for ex in extras:
@@ -388,4 +402,34 @@ def wait_timeout_jobs(start_run=1):
                     s += [{"a": "partdone", "p": part, "how": final, "code": 203} for part in range(1, nparts + 1)]
                     jobs.append({"run": run, "scen": sc, "sched": s, "drain": True, "tag": "directed:wait_timeout"})
                     run += 1
+    return jobs
+
+
+# ---------------------------------------------------------------------------------------------
+# Directed schedules: the periodic height poll of the real BlockWatcher is in flight (getinfo not yet answered) while a
+# set of hash h1 becomes ready and an incomplete set of hash h2 waits for its MPP timeout.  The timeout of h2 must not
+# depend on the node answering getinfo (C11 across block_watcher.rs and the lifecycle; also C14).
+def poll_window_jobs(start_run=1):
+    jobs = []
+    cfg = dict(CFG_A)
+    h0, pd = cfg["h0"], cfg["pdelta"]
+    N = need_of(cfg, 10)
+    full = H("h1", 1, N, N, h0 + pd + 30, pd + 30)
+    part = H("h2", 4, N // 2 + 1, N, h0 + pd + 12, pd + 12)
+    ex = lambda kind, hash, **kw: {"a": "exec", "sel": dict({"kind": kind, "hash": hash}, **kw), "who": "own", "fault": "none"}
+    de = lambda kind, hash, **kw: {"a": "deliver", "sel": dict({"kind": kind, "hash": hash}, **kw), "who": "own"}
+    run = start_run
+    for pre_ticks in (60, 59, 61):
+        for answered in (False, True):
+            for order in ("full-first", "part-first"):
+                sched = [{"a": "tick"}] * pre_ticks
+                if answered:
+                    sched += [ex("getinfo", ""), de("getinfo", "")]
+                a = [{"a": "htlc", "i": 1}, ex("listds", "h1", key="state"), de("listds", "h1", key="state")]
+                b = [{"a": "htlc", "i": 2}, ex("listds", "h2", key="state"), de("listds", "h2", key="state")]
+                sched += (a + b) if order == "full-first" else (b + a)
+                sched += [{"a": "tick"}] * (cfg["mpp"] + 2)
+                jobs.append({"run": run, "scen": {"cfg": cfg, "invs": INVS, "htlcs": [full, part], "probe": []},
+                             "sched": sched, "drain": True, "realblocks": True, "tag": "pollwindow"})
+                run += 1
     return jobs
